@@ -20,6 +20,23 @@ Section Full.
   Variable tbl : list (string * Z).
   Variables FK DK : list (list Z).
   Hypothesis Disj : forall k, In k FK -> In k DK -> False.
+  Hypothesis DKclosed : forall p f, In p DK -> is_prefix f p = true -> In f DK.
+
+  Lemma proper_prefix_snoc a pre last :
+    proper_prefix a (pre ++ [last]) = true -> exists j, a = firstn j pre.
+  Proof.
+    unfold proper_prefix. intros H. apply andb_true_iff in H. destruct H as [H1 H2].
+    pose proof (is_prefix_firstn _ _ H1) as E. exists (List.length a).
+    rewrite E at 1. rewrite firstn_app.
+    assert (HL : (List.length a <= List.length pre)%nat).
+    { destruct (Nat.le_gt_cases (List.length a) (List.length pre)) as [|HG]; [assumption|].
+      exfalso. assert (List.length (pre ++ [last]) <= List.length a)%nat.
+      { rewrite app_length. cbn. lia. }
+      rewrite firstn_all2 in E by assumption. subst a.
+      rewrite list_eqb_refl_Z in H2. discriminate. }
+    replace (List.length a - List.length pre)%nat with 0%nat by lia.
+    cbn [firstn]. now rewrite app_nil_r.
+  Qed.
 
   Lemma QInv_reset st :
     QInv FK DK st -> QInv FK DK (PS (p_store st) (p_nh st) (p_nm st) [] XNone).
@@ -83,12 +100,39 @@ Section Full.
     apply andb_true_iff in HCore. destruct HCore as [HCore K4].
     apply andb_true_iff in HCore. destruct HCore as [HCore K3].
     apply andb_true_iff in HCore. destruct HCore as [K1 K2].
+    assert (HSt : forall pre last, In (pre, last) (accepted_keys tbl c) ->
+                  In (pre ++ [last]) FK /\ forall j, In (firstn j pre) DK).
+    { intros pre last HIn. apply (accepted_key_static tbl c FK DK HFK HDK); auto.
+      cbn [forallb]. now rewrite HW. }
+    assert (HAfk : forall f, In f (map kpath (accepted_keys tbl c)) ->
+                   In f FK /\ exists pre last, f = pre ++ [last] /\ forall j, In (firstn j pre) DK).
+    { intros f Hf. apply in_map_iff in Hf. destruct Hf as ([pre last] & <- & Hf).
+      destruct (HSt pre last Hf) as [A B]. split; [exact A|]. exists pre, last. auto. }
     unfold call_holds. rewrite K1, K2, K3, K4, K5. cbn [andb]. rewrite andb_true_r.
-    apply andb_true_iff; split; [apply andb_true_iff; split|].
-    - apply forallb_forall. intros key _.
+    apply andb_true_iff; split; [apply andb_true_iff; split; [apply andb_true_iff; split|]|].
+    - apply forallb_forall. intros key _. unfold col_ok.
       rewrite (bridge_col _ _ HM1 key), (bridge_col _ _ HM0 key), news_of_newsL, HL.
-      fold s0. rewrite <- HCol. apply list_eqb_refl_Z.
-    - apply forallb_forall. intros p Hp. apply (bridge_map _ _ HM1).
+      fold s0. rewrite <- HCol.
+      destruct (existsb (fun f => proper_prefix (kpath key) f) (map kpath (accepted_keys tbl c)) ||
+                existsb (fun f => is_prefix f (fst key)) (map kpath (accepted_keys tbl c)))
+        eqn:EKill.
+      + destruct (scol (p_store st1) key) as [|h0 col] eqn:ES; [reflexivity|]. exfalso.
+        destruct key as [p n].
+        assert (HFp : In (p ++ [n]) FK).
+        { apply (Q_ncf _ _ _ HQ1). rewrite ES. discriminate. }
+        apply orb_true_iff in EKill. destruct EKill as [EK|EK];
+          apply existsb_exists in EK; destruct EK as (f & Hf & HP);
+          destruct (HAfk f Hf) as (HfF & pre & last & -> & HfD).
+        * unfold kpath in HP. cbn [fst snd] in HP.
+          destruct (proper_prefix_snoc _ _ _ HP) as (j & E). apply (Disj (p ++ [n])); auto.
+          rewrite E. apply HfD.
+        * cbn [fst] in HP. apply (Disj (pre ++ [last])); auto.
+          apply (DKclosed p); auto. apply (Q_ncd _ _ _ HQ1).
+          unfold scol in ES. cbn [fst snd] in ES. destruct (walk (p_store st1) 0 p); [|discriminate].
+          discriminate.
+      + destruct (existsb (list_eqb Z.eqb (kpath key)) (allowed_maps tbl c));
+          rewrite list_eqb_refl_Z; [apply orb_true_r|reflexivity].
+    - apply forallb_forall. intros p Hp. apply orb_true_iff. right. apply (bridge_map _ _ HM1).
       pose proof (omaps_store s0 prev 0 p HM0 Hp) as Hw.
       destruct (walk s0 0 p) as [x|] eqn:E; [|congruence]. rewrite (HOld p x E). discriminate.
     - apply forallb_forall. intros p Hp.
@@ -97,6 +141,12 @@ Section Full.
       + apply (bridge_map _ _ HM0) in A. now rewrite A.
       + apply orb_true_iff. right. apply existsb_exists. exists p. split; [exact A|].
         apply list_eqb_refl_Z.
+    - apply forallb_forall. intros p Hp. apply negb_true_iff.
+      destruct (existsb (fun f => is_prefix f p) (map kpath (accepted_keys tbl c))) eqn:EX;
+        [|reflexivity]. exfalso.
+      apply existsb_exists in EX. destruct EX as (f & Hf & HP).
+      destruct (HAfk f Hf) as (HfF & _). apply (Disj f); auto.
+      apply (DKclosed p); auto. apply (Q_ncd _ _ _ HQ1). exact (omaps_store _ _ 0 p HM1 Hp).
   Qed.
 
   Lemma run_calls_full cs : forall st prev,
@@ -139,11 +189,11 @@ Proof.
   destruct H as [H|[]]. destruct pre; discriminate.
 Qed.
 
-Theorem accepts_holds_full c :
-  wf_b c = true -> known_b c = false -> accepts c = true -> holds c.
+Theorem accepts_holds_noclash c :
+  wf_b c = true -> noclash_b c = true -> known_b c = false -> accepts c = true -> holds c.
 Proof.
-  unfold wf_b, known_b, accepts, holds, holds_b. intros HW HK HA.
-  apply andb_true_iff in HW. destruct HW as [HW HD].
+  unfold wf_b, noclash_b, known_b, accepts, holds, holds_b. intros HW HD HK HA.
+  apply andb_true_iff in HW. destruct HW as [HW _].
   apply andb_true_iff in HW. destruct HW as [_ HWc].
   set (tbl := c_names c) in *.
   set (FK := flat_map (file_keys tbl) (c_calls c)) in *.
@@ -156,7 +206,12 @@ Proof.
       assert (existsb (list_eqb Z.eqb k) (flat_map (dir_keys tbl) (c_calls c)) = true).
       { apply existsb_exists. exists k. split; [exact HDk|apply list_eqb_refl_Z]. }
       congruence. }
-  apply (run_calls_full tbl FK DK Disj (c_calls c) ps_init o_empty); auto.
+  assert (DKclosed : forall p f, In p DK -> is_prefix f p = true -> In f DK).
+  { intros p f [<-|HI] HP.
+    - destruct f; [now left|discriminate].
+    - right. apply in_flat_map in HI. destruct HI as (c0 & Hc0 & HI). apply in_flat_map.
+      exists c0. split; [exact Hc0|]. eapply dir_keys_closed; eauto. }
+  apply (run_calls_full tbl FK DK Disj DKclosed (c_calls c) ps_init o_empty); auto.
   - apply QInv_init. now left.
   - intros c0 Hc0. split; intros k Hk.
     + unfold FK. apply in_flat_map. eauto.
